@@ -10,6 +10,7 @@ import (
 	"pgregory.net/rapid"
 
 	"verif/internal/corpus"
+	"verif/internal/dcegen"
 	"verif/internal/drv"
 	"verif/internal/progen"
 )
@@ -18,7 +19,7 @@ var ev *drv.Evidence
 
 func TestMain(m *testing.M) { drv.TestMain(m, func() *drv.Evidence { return ev }) }
 
-const rule = "rapid-generated single-goroutine programs (progen: assignments of all forms, op-assign, inc/dec on index/selector/deref targets, if chains with init, expression/tagless/type switches with fallthrough and break, three for forms, range over slice/string/map, labelled break/continue, forward and bounded backward goto, closures over outer and loop variables, methods, method values/expressions, interface calls, variadics, named types, shadowing, deferred closures with recover, struct/array copies, sized-integer arithmetic and conversions, generics) ending in normal return, explicit panic, run-time error or deadlock; several scenarios per bundle, each run in its own process in both worlds; oracle: same trace lines and same way of ending as the native build, no compiler error, node --check accepts the output. Non-trivial scenario: >=5 trace lines and >=3 distinct statement kinds beyond plain assignment; distinct by source text. The hand-written corpus programs are included as fixed cases."
+const rule = "rapid-generated single-goroutine programs (progen: assignments of all forms, op-assign, inc/dec on index/selector/deref targets, if chains with init, expression/tagless/type switches with fallthrough and break, three for forms, range over slice/string/map, labelled break/continue, forward and bounded backward goto, closures over outer and loop variables, methods, method values/expressions, interface calls, variadics, named types, shadowing, deferred closures with recover, struct/array copies, sized-integer arithmetic and conversions, generics) ending in normal return, explicit panic, run-time error or deadlock; several scenarios per bundle, each run in its own process in both worlds; oracle: same trace lines and same way of ending as the native build, no compiler error, node --check accepts the output. Non-trivial scenario: >=5 trace lines and >=3 distinct statement kinds beyond plain assignment; distinct by source text. The hand-written corpus programs are included as fixed cases; the reachability-unit programs of the dead-code check (dcegen: initialisers nobody reads, calls through named function types, interface method expressions, nil interfaces, dynamic type tests) run against the native build as well."
 
 var features = progen.Features{Generics: true, Ending: true, DeadCode: true, Hostile: true}
 
@@ -68,6 +69,15 @@ func TestCheck(t *testing.T) {
 	for _, f := range drv.OpenFindings("C01") {
 		replayFinding(f)
 	}
+	// reachability-unit programs (generated for the dead-code check) against the native build
+	nUnits := 12
+	if drv.Thorough() {
+		nUnits = 300
+	}
+	drv.Parallel(nUnits, func(i int) {
+		u := rapid.Custom(dcegen.Gen).Example(drv.Seed()*9001 + i)
+		runCorpus(corpus.Program{Name: fmt.Sprintf("units%d %v", i, u.Kinds), Files: u.SingleFile()})
+	})
 	bundles := make([]bundle, nBundles)
 	drv.ParallelN(4, nBundles, func(i int) { bundles[i] = genBundle(drv.Seed()*1009+i, k) })
 	gen := ev.Evals()
